@@ -12,6 +12,7 @@ func checkC03(c *Ctx) {
 	c.Floor("PAIR", 40)
 	c.checkEnumSiblings("SIBLING")
 	c.enumDescentGuards("SIBLING")
+	c.enumNodeDescentGuards("SIBLING")
 	c.Floor("SIBLING", 8)
 	c.Decides("ORIENT: a node made the root in the block that attaches it as the child end of a new branch (ConnectNodes(parent, child); SetRoot(child)) is followed by a re-orientation")
 	c.orientRule("ORIENT")
